@@ -44,8 +44,9 @@ file systems) is lost.`,
 	register(&Rule{
 		ID: "RE-7", Props: []string{"C17"}, Min: 1,
 		Doc: `the guard that vouches for the end of an xz stream is exact: in a Read method of pkg/obiformats that turns io.EOF into io.ErrUnexpectedEOF under an extra condition on remembered bytes,
-that condition — evaluated over every combination "byte equals / differs from the constant it is compared with" — is true exactly when at least one byte differs (De Morgan slips accept
-a truncated stream whenever one of the two bytes happens to match).`,
+that condition (predicate methods of the module inlined) — evaluated over every valuation of its equality tests and boolean alarm flags — is true exactly when an alarm is raised or at least
+one test fails (De Morgan slips accept a truncated stream whenever one test happens to hold); the tests include the CRC32 of the footer (magic bytes alone are matched by one block boundary in
+65536), and one alarm flag is set by a source Read of the package when it meets io.EOF after a short read (a damaged block header that swallows the footer).`,
 		Run: runRE7,
 	})
 	register(&Rule{
@@ -390,59 +391,172 @@ func runRE7(c *Ctx, s *Sink) {
 				return true // unconditional mapping
 			}
 			key := funcName(p, fd) + ":footer-guard"
-			// atoms
-			atoms := map[string]bool{}
-			for _, r := range rest {
-				ast.Inspect(r, func(m ast.Node) bool {
-					if b, ok := m.(*ast.BinaryExpr); ok && (b.Op == token.EQL || b.Op == token.NEQ) {
-						if _, isConst := constInt(info, b.Y); isConst {
-							atoms[types.ExprString(b.X)] = true
+			// atoms: "match" atoms are the equalities the guard (or a predicate method of the module it calls, inlined)
+			// tests — bytes against constants, a stored checksum against a computed one, a length; "alarm" atoms are
+			// plain boolean fields or variables (something went wrong before)
+			match, alarm := map[string]bool{}, map[string]bool{}
+			var collect func(ci *types.Info, e ast.Expr, depth int) bool
+			collect = func(ci *types.Info, e ast.Expr, depth int) bool {
+				e = ast.Unparen(e)
+				switch x := e.(type) {
+				case *ast.UnaryExpr:
+					if x.Op == token.NOT {
+						return collect(ci, x.X, depth)
+					}
+				case *ast.BinaryExpr:
+					switch x.Op {
+					case token.LAND, token.LOR:
+						return collect(ci, x.X, depth) && collect(ci, x.Y, depth)
+					case token.EQL, token.NEQ:
+						match[types.ExprString(x)] = true
+						if x.Op == token.NEQ {
+							delete(match, types.ExprString(x))
+							match[types.ExprString(x.X)+" == "+types.ExprString(x.Y)] = true
+						}
+						return true
+					}
+				case *ast.Ident, *ast.SelectorExpr:
+					if t := ci.TypeOf(x); t != nil {
+						if bt, ok := t.Underlying().(*types.Basic); ok && bt.Kind() == types.Bool {
+							alarm[types.ExprString(x)] = true
+							return true
 						}
 					}
-					return true
-				})
+				case *ast.CallExpr:
+					if depth < 2 {
+						if ret, ri := predicateBody(c, ci, x); ret != nil {
+							return collect(ri, ret, depth+1)
+						}
+					}
+				}
+				return false
 			}
-			var names []string
-			for a := range atoms {
-				names = append(names, a)
+			okAll := true
+			for _, r := range rest {
+				if !collect(info, r, 0) {
+					okAll = false
+				}
 			}
-			sort.Strings(names)
-			if len(names) == 0 || len(names) > 6 {
-				s.Undecided(nil, key, ifs.Pos(), "cannot enumerate the byte comparisons of the guard")
+			var mnames, anames []string
+			for a := range match {
+				mnames = append(mnames, a)
+			}
+			for a := range alarm {
+				anames = append(anames, a)
+			}
+			sort.Strings(mnames)
+			sort.Strings(anames)
+			names := append(append([]string{}, mnames...), anames...)
+			if !okAll || len(mnames) == 0 || len(names) > 10 {
+				s.Undecided(nil, key, ifs.Pos(), "the guard contains something else than equalities, boolean flags and predicate methods of the module combined with && || !")
 				return true
+			}
+			var eval func(ci *types.Info, e ast.Expr, val map[string]bool, depth int) bool
+			eval = func(ci *types.Info, e ast.Expr, val map[string]bool, depth int) bool {
+				e = ast.Unparen(e)
+				switch x := e.(type) {
+				case *ast.UnaryExpr:
+					return !eval(ci, x.X, val, depth)
+				case *ast.BinaryExpr:
+					switch x.Op {
+					case token.LAND:
+						return eval(ci, x.X, val, depth) && eval(ci, x.Y, val, depth)
+					case token.LOR:
+						return eval(ci, x.X, val, depth) || eval(ci, x.Y, val, depth)
+					case token.EQL:
+						return val[types.ExprString(x)]
+					case token.NEQ:
+						return !val[types.ExprString(x.X)+" == "+types.ExprString(x.Y)]
+					}
+				case *ast.Ident, *ast.SelectorExpr:
+					return val[types.ExprString(x)]
+				case *ast.CallExpr:
+					if ret, ri := predicateBody(c, ci, x); ret != nil {
+						return eval(ri, ret, val, depth+1)
+					}
+				}
+				return false
 			}
 			var bad []string
 			for mask := 0; mask < 1<<len(names); mask++ {
 				val := map[string]bool{}
-				all := true
+				allMatch, anyAlarm := true, false
 				for i, nme := range names {
 					val[nme] = mask&(1<<i) != 0
-					if !val[nme] {
-						all = false
+					if i < len(mnames) && !val[nme] {
+						allMatch = false
+					}
+					if i >= len(mnames) && val[nme] {
+						anyAlarm = true
 					}
 				}
 				got := true
 				for _, r := range rest {
-					v, ok := evalByteCond(info, r, val)
-					if !ok {
-						s.Undecided(nil, key, ifs.Pos(), "the guard contains something else than byte comparisons combined with && || !")
-						return true
-					}
-					got = got && v
+					got = got && eval(info, r, val, 0)
 				}
-				want := !all // the end is NOT vouched for as soon as one byte differs
-				if got != want {
+				want := anyAlarm || !allMatch // the end is NOT vouched for as soon as one test of the footer fails or an alarm is raised
+				if got != want && len(bad) < 4 {
 					var desc []string
 					for _, nme := range names {
-						desc = append(desc, fmt.Sprintf("%s %s", nme, map[bool]string{true: "matches", false: "differs"}[val[nme]]))
+						desc = append(desc, fmt.Sprintf("%s is %v", nme, val[nme]))
 					}
-					bad = append(bad, fmt.Sprintf("when %s the end of data is %s", strings.Join(desc, " and "), map[bool]string{true: "rejected although the footer is there", false: "accepted although the footer magic is incomplete"}[got]))
+					bad = append(bad, fmt.Sprintf("when %s the end of data is %s", strings.Join(desc, ", "), map[bool]string{true: "rejected although the footer is there and nothing was wrong", false: "accepted although a test of the footer fails or an alarm is raised"}[got]))
 				}
 			}
+			// what the guard must rest on: the footer's own checksum (two magic bytes can be matched by the arbitrary bytes of
+			// a block check field: one block boundary in 65536), and an alarm raised by the source reader when the decoder
+			// met the end of the data in the middle of a request (a block header announcing more bytes than the file holds
+			// swallows the footer and ends on a plain io.EOF)
+			hasCRC := false
+			for _, m := range mnames {
+				if strings.Contains(m, "crc32.") {
+					hasCRC = true
+				}
+			}
+			alarmSet := false
+			c.EachFunc([]string{"pkg/obiformats"}, func(rp *packages.Package, rfd *ast.FuncDecl) {
+				if rfd.Recv == nil || rfd.Name.Name != "Read" {
+					return
+				}
+				ast.Inspect(rfd.Body, func(m ast.Node) bool {
+					rif, ok := m.(*ast.IfStmt)
+					if !ok {
+						return true
+					}
+					eof := false
+					ast.Inspect(rif.Cond, func(k ast.Node) bool {
+						if e, ok := k.(ast.Expr); ok && isObj(rp.TypesInfo, e, "io", "EOF") {
+							eof = true
+						}
+						return true
+					})
+					if !eof {
+						return true
+					}
+					for _, st := range rif.Body.List {
+						if as, ok := st.(*ast.AssignStmt); ok && len(as.Lhs) == 1 && len(as.Rhs) == 1 {
+							if id, ok := ast.Unparen(as.Rhs[0]).(*ast.Ident); ok && id.Name == "true" {
+								if sel, ok := ast.Unparen(as.Lhs[0]).(*ast.SelectorExpr); ok {
+									for _, a := range anames {
+										if strings.HasSuffix(a, "."+sel.Sel.Name) {
+											alarmSet = true
+										}
+									}
+								}
+							}
+						}
+					}
+					return true
+				})
+			})
 			if len(bad) > 0 {
-				s.Fail(nil, key, ifs.Pos(), "the condition that turns io.EOF into io.ErrUnexpectedEOF is not 'at least one remembered byte differs from the footer magic': "+strings.Join(bad, "; "))
+				s.Fail(nil, key, ifs.Pos(), "the condition that turns io.EOF into io.ErrUnexpectedEOF is not 'an alarm is raised or at least one test of the footer fails': "+strings.Join(bad, "; "))
+			} else if !hasCRC {
+				s.Fail(nil, key, ifs.Pos(), "the end of the stream is vouched for by magic bytes only, not by the checksum of the footer: the last bytes of a block (its check field) are arbitrary, a file cut at a block boundary whose check ends with those bytes is accepted as complete")
+			} else if !alarmSet {
+				s.Fail(nil, key, ifs.Pos(), "no alarm is raised when the decoder meets the end of the data in the middle of a request: a damaged block header announcing more bytes than remain swallows the intact footer, the decoder returns io.EOF, and the last block is silently dropped")
 			} else {
-				s.Pass(nil, key, ifs.Pos(), fmt.Sprintf("guard over %d remembered bytes is exactly the negation of 'all match' (%d valuations)", len(names), 1<<len(names)))
+				s.Pass(nil, key, ifs.Pos(), fmt.Sprintf("guard over %d footer tests and %d alarm flags is exactly 'alarm or not all tests hold' (%d valuations)", len(mnames), len(anames), 1<<len(names)))
 			}
 			return true
 		})
@@ -750,4 +864,27 @@ func runRSLoop(c *Ctx, s *Sink) {
 	} else {
 		s.Pass(nil, key, newCall.Pos(), fmt.Sprintf("%d variable(s) declared outside the loop, each assigned on every path before the record is built", nvars))
 	}
+}
+
+// predicateBody: for a call of a method/function of the module whose body is a (possibly preceded by simple local
+// definitions) single 'return <bool expr>', the returned expression and the type information to read it with.
+func predicateBody(c *Ctx, info *types.Info, call *ast.CallExpr) (ast.Expr, *types.Info) {
+	f := callee(info, call)
+	if f == nil || f.Pkg() == nil || !strings.HasPrefix(f.Pkg().Path(), modPath) {
+		return nil, nil
+	}
+	d, dp := c.DeclOf(f)
+	if d == nil || d.Body == nil || len(d.Body.List) == 0 {
+		return nil, nil
+	}
+	r, ok := d.Body.List[len(d.Body.List)-1].(*ast.ReturnStmt)
+	if !ok || len(r.Results) != 1 {
+		return nil, nil
+	}
+	for _, st := range d.Body.List[:len(d.Body.List)-1] {
+		if as, ok := st.(*ast.AssignStmt); !ok || as.Tok != token.DEFINE {
+			return nil, nil
+		}
+	}
+	return r.Results[0], dp.TypesInfo
 }
